@@ -293,3 +293,34 @@ Example sig_time_wrap :
   ixfr_client_up_to_date 5 4294967290 = true /\         (* client serial 5 is newer than 0xFFFFFFFA *)
   diff_range_rejected 4294967295 3 = false.
 Proof. vm_compute. auto. Qed.
+
+(* ---- date notation ------------------------------------------------------- *)
+Lemma timestamp_of_secs_u32 secs : u32 (timestamp_of_secs secs).
+Proof.
+  unfold timestamp_of_secs, u32, M32. cbv [date_cast_wraps].
+  pose proof (Z.mod_pos_bound secs 4294967296 ltac:(lia)). lia.
+Qed.
+
+(* a time k seconds later (1 <= k <= 2^31-1) parses to a strictly greater
+   timestamp, wherever the two times sit relative to 2106-02-07 06:28:16 *)
+Lemma date_later_is_greater secs k : (1 <= k <= 2147483647)%Z ->
+  serial_partial_cmp (timestamp_of_secs secs) (timestamp_of_secs (secs + k)) = Ok (Some Lt).
+Proof.
+  intros Hk.
+  destruct (add_gt (timestamp_of_secs secs) (Z.to_N k) (timestamp_of_secs_u32 secs)) as (s & Hs & _ & Hlt & _);
+    [lia|].
+  rewrite add_total in Hs by lia. injection Hs as <-.
+  replace (timestamp_of_secs (secs + k)) with ((timestamp_of_secs secs + Z.to_N k) mod M32); [exact Hlt|].
+  unfold timestamp_of_secs, M32. cbv [date_cast_wraps].
+  pose proof (Z.mod_pos_bound secs 4294967296 ltac:(lia)).
+  pose proof (Z.mod_pos_bound (secs + k) 4294967296 ltac:(lia)).
+  lia.
+Qed.
+
+Example date_examples :
+  timestamp_of_date 1970 1 1 0 0 0 = 0%N /\
+  timestamp_of_date 2106 2 7 6 28 15 = 4294967295%N /\
+  timestamp_of_date 2106 2 7 6 28 16 = 0%N /\
+  timestamp_of_date 2038 1 19 3 14 8 = 2147483648%N /\
+  timestamp_of_date 2026 9 26 0 0 0 = 1790380800%N.
+Proof. vm_compute. auto. Qed.
